@@ -190,8 +190,15 @@ def idle_handler(prog, ex, P, tier):
 def ref_histories(prog, ex, P, tier):
     """clone / drop / downgrade / upgrade histories interleaved with traffic"""
     h = pick(ex, ["weak-only", "upgrade-keeps-alive", "envelope-holds-last", "clone-chain", "keep-one"], "history")
+    periodic = pick(ex, [False, True], "periodic-on_run")
     s = Sim(prog, ex)
-    s.spawn_actor(Script("A", handler_yields={"*": pick(ex, [0, 1], "handler-yields")}), 2)
+    sc = Script("A", handler_yields={"*": pick(ex, [0, 1], "handler-yields") if not periodic else 0})
+    if periodic:
+        # the documented periodic-task pattern: on_run awaits a timer and returns Ok(true) for ever
+        sc.on_run_default = ("true", "tick")
+        ticks = [2]
+        s.extra_actions.append((lambda: ticks[0] > 0, lambda: (ticks.__setitem__(0, ticks[0] - 1), s.w.advance(1)), "clock-advance"))
+    s.spawn_actor(sc, 2)
     alive = False
     if h == "weak-only":
         s.client("c1", [("downgrade", "A"), ("tell", "A", 1), ("drop", "A"), ("yield",), ("weak_is_alive", "A")], ["A"])
@@ -227,7 +234,7 @@ def timeouts(prog, ex, P, tier):
     """tell_with_timeout / ask_with_timeout with a symbolic timeout d, symbolic clock increments,
     mailbox free / full, actor answering / slow / dying"""
     kind = pick(ex, ["tell_t", "ask_t"], "op")
-    state = pick(ex, ["free", "full", "dying"], "mailbox")
+    state = pick(ex, ["free", "full", "dying", "full+dying"], "mailbox")
     slow = pick(ex, [0, 2], "handler-yields")
     s = Sim(prog, ex)
     w = s.w
@@ -235,14 +242,14 @@ def timeouts(prog, ex, P, tier):
     ex.assume(z3.ULE(d, 6))
     sc = Script("A", handler_yields={"*": slow})
     s.spawn_actor(sc, 1)
-    if state == "full":
+    if state.startswith("full"):
         s.client("c0", [("tell", "A", 7)], ["A"])
         s.run_fair_until_client_done = True
         # let c0 fill the mailbox before anything else happens
         w.poll_task(s.it, s.w.tasks[1])
     ops = [(kind, "A", 1, d)]
     s.client("c1", ops, ["A"])
-    if state == "dying":
+    if state.endswith("dying"):
         s.client("ck", [("kill", "A")], ["A"])
     s.drop_main("A")
     ticks = [2 if tier == "quick" else 3]
@@ -545,3 +552,55 @@ def id_alloc(prog, ex, P, tier):
     ex.event(ev="id_alloc", atomic_ops=[k for k, _o, _r in log], interleavings=len(set(itertools.permutations([0] * n + [1] * n))))
     ex.steps = s.it.steps
     ex.sim = s
+
+
+# ---- metrics (C20) ------------------------------------------------------------------------------
+def metrics_scn(prog, ex, P, tier):
+    cause = pick(ex, ["keep", "stop", "kill"], "cause")
+    s = Sim(prog, ex)
+    w = s.w
+    s.spawn_actor(Script("A", handler_yields={"*": 1}), 2)
+    s.client("c1", [("tell", "A", 1), ("ask", "A", 2), ("tell", "A", 3)], ["A"], keep_refs=True)
+    if cause == "stop":
+        s.client("cs", [("stop", "A")], ["A"])
+    if cause == "kill":
+        s.client("ck", [("kill", "A")], ["A"])
+    s.drop_main("A")
+    ticks = [2]
+    spans = []
+
+    def can_tick():
+        return ticks[0] > 0
+
+    def tick():
+        ticks[0] -= 1
+        dt = ex.sym("dt%d" % ticks[0], 64)
+        ex.assume(z3.ULE(dt, 5))
+        # is a handler in progress right now?  (entered, not exited)
+        ent = sum(1 for e in ex.events if e["ev"] == "hook_enter" and e["hook"] == "handler")
+        exi = sum(1 for e in ex.events if e["ev"] in ("hook_exit", "hook_dropped") and e["hook"] == "handler" and e["ev"] == "hook_exit")
+        spans.append((ent > exi, dt))
+        w.advance(dt)
+    s.extra_actions.append((can_tick, tick, "clock-advance"))
+    s.run(70)
+    tr = finish(ex, s)
+    # longest time a handler demonstrably took: any single clock advance that happened while a
+    # handler that later *completed* was in progress
+    M.mon_c20(tr, "A")
+    cell = s.clients["c1"].refs["A"]
+    if cell.value is not MOVED:
+        mx = w.call_method(s.it, "ActorRef", "max_processing_time", [Ref(cell, (), False)]).fields[0]
+        completed = len([1 for _, e in tr.hook("A", "handler", "hook_exit")])
+        entered = len(tr.handled("A"))
+        if completed == entered:
+            for inprog, dt in spans:
+                if inprog:
+                    ex.check("C20", w.zge(mx, dt), "max_processing_time is smaller than the time a handler demonstrably took")
+        # weak-upgraded handle after the end reads the same values
+        wk = Cell(w.call_method(s.it, "ActorRef", "downgrade", [Ref(cell, (), False)]), "wk")
+        up = w.call_method(s.it, "ActorWeak", "upgrade", [Ref(wk, (), False)])
+        if up.variant == "Some":
+            c2 = Cell(up.fields[0], "up")
+            n1 = w.call_method(s.it, "ActorRef", "message_count", [Ref(cell, (), False)])
+            n2 = w.call_method(s.it, "ActorRef", "message_count", [Ref(c2, (), False)])
+            ex.check("C20", w.describe(n1) == w.describe(n2), "metrics differ between a strong and a weak-upgraded handle")
